@@ -41,6 +41,13 @@ def cache(fn, **kw):
 def get_pair(fi, step):
     """(plain callable, cached callable) for this step"""
     f = cfg["funcs"][fi]
+    if f["kind"] == "method" and step.get("via_class"):
+        # the same function reached through the class and called with the instance as first argument: Holder.f(h, ...)
+        key = (fi, "unbound")
+        if key not in wrappers:
+            plain = getattr(mod.Holder, f["name"])
+            wrappers[key] = (plain, cache(plain, ignore=f["ignore"] or None))
+        return wrappers[key] + ([mod.Holder(step.get("holder", "h0"))],)
     if f["kind"] == "method":
         tag = step.get("holder", "h0")
         # a NEW but equal instance each time unless told otherwise: equal state must hit
@@ -89,11 +96,12 @@ for step in cfg["steps"]:
     fi = step["f"]
     f = cfg["funcs"][fi]
     is_async = f["kind"] == "async"
-    plain, cached = get_pair(fi, step)
+    plain, cached, *prefix = get_pair(fi, step)
+    prefix = prefix[0] if prefix else []
     perm = random.Random(step.get("perm", 0))
     # share: equal str / bytes leaves of this call are ONE object (a literal or variable reused); otherwise each is a fresh object
     pool = {} if step.get("share") else None
-    args = [gen_obj.build(s, perm, strpool=pool) for s in step["args"]]
+    args = prefix + [gen_obj.build(s, perm, strpool=pool) for s in step["args"]]
     kwargs = {k: gen_obj.build(s, perm, strpool=pool) for k, s in step["kwargs"].items()}
     rec = {}
     if step.get("check_before") and not is_async:
@@ -113,7 +121,7 @@ for step in cfg["steps"]:
     rec["executed"] = len(LOG) - n0
     # rebuild the arguments for the plain call (the cached call must not have mutated them, but do not rely on it)
     perm = random.Random(step.get("perm", 0) + 1)
-    args = [gen_obj.build(s, perm) for s in step["args"]]
+    args = prefix + [gen_obj.build(s, perm) for s in step["args"]]
     kwargs = {k: gen_obj.build(s, perm) for k, s in step["kwargs"].items()}
     rec["plain"] = run(plain, args, kwargs, is_async)
     out.append(rec)
